@@ -12,7 +12,7 @@ def main():
         await w.start()
         s = Session(net, 2121)
         await s.run(corpus()["two_transfers"])
-        await w.server.close()
+        await w.stop()
         await net.quiesce(1.0)
         return s.flat_codes(), w.leaks(expect_server_closed=True)
     res, info = W.run(case, seed=1)
